@@ -439,9 +439,12 @@ class _Formatter:
     # Token iteration
     # ---------------------------------------------------------------
     def _iter_tokens(self):
+        # ``self._src`` is text that has just been encoded as UTF-8 here: say
+        # so, or the tokenizer applies a PEP 263 coding cookie found in the
+        # first two lines to these bytes a second time.
         readline = io.BytesIO(self._src.encode("utf-8")).readline
         try:
-            yield from tokenize(readline, tolerant=False)
+            yield from tokenize(readline, tolerant=False, encoding="utf-8")
         except (TokenError, IndentationError) as exc:
             raise FormatError(str(exc)) from exc
 
